@@ -28,8 +28,8 @@ func init() {
 			"H264 trains come from the harness's independent encoder, AV1 trains from the library payloader (its conformance is C13's subject)",
 		},
 		Strata: []fw.Stratum{
-			{Name: "h264-loss-subsets", N: fw.Const(2500, 250000), Run: c15H264},
-			{Name: "av1-loss-subsets", N: fw.Const(2500, 250000), Run: c15AV1},
+			{Name: "h264-loss-subsets", N: fw.Const(10000, 300000), Run: c15H264},
+			{Name: "av1-loss-subsets", N: fw.Const(10000, 300000), Run: c15AV1},
 		},
 	})
 }
